@@ -28,7 +28,7 @@ from types import TracebackType
 from typing import Awaitable, Dict, List, Optional, Set, Tuple, Type, Union
 
 from ._cache import DNSCache
-from ._dns import DNSQuestion, DNSQuestionType
+from ._dns import DNSQuestion, DNSQuestionType, DNSRecord
 from ._engine import AsyncEngine
 from ._exceptions import NonUniqueNameException, NotRunningException
 from ._handlers.multicast_outgoing_queue import MulticastOutgoingQueue
@@ -466,9 +466,27 @@ class Zeroconf(QuietLogger):
         assert info.server_key is not None
         entries = self.registry.async_get_infos_server(info.server_key)
         broadcast_addresses = not bool(entries)
+        self._async_remove_queued_answers(info, broadcast_addresses)
         return asyncio.ensure_future(
             self._async_broadcast_service(info, _UNREGISTER_TIME, 0, broadcast_addresses)
         )
+
+    def _async_remove_queued_answers(self, info: ServiceInfo, broadcast_addresses: bool) -> None:
+        """Drop answers for a withdrawn service that are still waiting to be multicast.
+
+        Otherwise an answer queued before the goodbye would be sent after it
+        and bring the service back to life in the caches of its peers.
+        """
+        withdrawn: Dict[DNSRecord, Set[DNSRecord]] = {
+            info.dns_pointer(): set(),
+            info.dns_service(): set(),
+            info.dns_text(): set(),
+        }
+        if broadcast_addresses:
+            for record in info.get_address_and_nsec_records():
+                withdrawn[record] = set()
+        self.out_queue.async_remove_answers(withdrawn)
+        self.out_delay_queue.async_remove_answers(withdrawn)
 
     def generate_unregister_all_services(self) -> Optional[DNSOutgoing]:
         """Generate a DNSOutgoing goodbye for all services and remove them from the registry."""
